@@ -34,7 +34,7 @@ impl RunCfg {
             "cache_ad": self.cache_ad, "cache_data": self.cache_data, "pool": self.pool,
             "build": crate::seam::FLAVOUR, "backend": self.backend,
             "doc": { "id_pool": self.doc.id_pool, "nasty": self.doc.nasty, "floats": self.doc.floats,
-                     "max_elems": self.doc.max_elems, "kinds": self.doc.kinds, "nested": self.doc.nested, "bang_ids": self.doc.bang_ids, "root_ids": self.doc.root_ids, "chars": self.doc.chars },
+                     "max_elems": self.doc.max_elems, "kinds": self.doc.kinds, "nested": self.doc.nested, "bang_ids": self.doc.bang_ids, "root_ids": self.doc.root_ids, "chars": self.doc.chars, "chain": self.doc.chain },
         })
     }
     pub fn from_json(v: &Value) -> Result<RunCfg, String> {
@@ -54,7 +54,7 @@ impl RunCfg {
             cache_data: u("cache_data")? as u32,
             pool: u("pool").unwrap_or(4) as usize,
             backend: v.get("backend").and_then(|x| x.as_str()).unwrap_or("sim").to_string(),
-            doc: DocCfg { id_pool: du("id_pool"), nasty: db("nasty"), floats: db("floats"), max_elems: du("max_elems"), kinds: db("kinds"), nested: db("nested"), bang_ids: db("bang_ids"), root_ids: db("root_ids"), chars: db("chars") },
+            doc: DocCfg { id_pool: du("id_pool"), nasty: db("nasty"), floats: db("floats"), max_elems: du("max_elems"), kinds: db("kinds"), nested: db("nested"), bang_ids: db("bang_ids"), root_ids: db("root_ids"), chars: db("chars"), chain: db("chain") },
         })
     }
 }
